@@ -19,6 +19,9 @@
 (* PHP-prescribed tree.                                                             *)
 EXTENDS NodeSchema, Naturals, Sequences, FiniteSets, TLC
 
+\* a pseudo kind: two sibling statements produced by one variant ("?>" followed by inline HTML)
+SchemaX == [k \in DOMAIN Schema \cup {"SEQ"} |-> IF k = "SEQ" THEN << <<"A", "node">>, <<"B", "node">> >> ELSE Schema[k]]
+
 Tk(x)       == [f |-> "tk", lex |-> x, glue |-> ""]
 TkG(x, g)   == [f |-> "tk", lex |-> x, glue |-> g]      \* g: "L" no trivia before, "R" none after, "LR" neither
 Ch(c, m)    == [f |-> "ch", cat |-> c, min |-> m]
@@ -28,14 +31,15 @@ LsM(c, m, lo, hi, sepslot, sep, trail) ==
                [f |-> "ls", cat |-> c, min |-> m, lo |-> lo, hi |-> hi, seps |-> sepslot, sep |-> sep, trail |-> trail]
 Nd(k, fill) == [f |-> "nd", kind |-> k, fill |-> fill]
 Vl(s)       == [f |-> "vl", of |-> s]
-Sq(items)   == [f |-> "sq", items |-> items]             \* a list made of exactly these fillers (Nd / Ch), in this order
+Sq(items)   == [f |-> "sq", items |-> items, seps |-> "", sep |-> ""]   \* a list made of exactly these fillers (Nd / Ch), in this order
+SqS(items, sepslot, sep) == [f |-> "sq", items |-> items, seps |-> sepslot, sep |-> sep]   \* ... with a separator between neighbours
 
 \* PHP's operator precedence (lowest first), https://www.php.net/manual/en/language.operators.precedence.php (7.4)
 L == [ lor |-> 1, lxor |-> 2, land |-> 3, print |-> 4, yield |-> 5, assign |-> 6, ternary |-> 7, coalesce |-> 8,
        bor |-> 9, band |-> 10, bitor |-> 11, bitxor |-> 12, bitand |-> 13, eq |-> 14, cmp |-> 15, shift |-> 16,
        add |-> 17, mul |-> 18, not |-> 19, instof |-> 20, unary |-> 21, pow |-> 22, clone |-> 23, atom |-> 30 ]
 
-\* fam: "both" | "7" (PHP 7-only syntax: PHP 5 must reject it) | "7g" (accepted by both, but PHP 5 groups it
+\* fam: "both" | "7" (PHP 7-only syntax: PHP 5 must reject it) | "73" (needs the flexible heredoc rule of >= 7.3) | "7g" (accepted by both, but PHP 5 groups it
 \* differently: uniform variable syntax) | "5" (PHP 5 only)
 V(id, kind, cats, fam, lvl, leaf, fill) ==
    [id |-> id, kind |-> kind, cats |-> cats, fam |-> fam, lvl |-> lvl, leaf |-> leaf, fill |-> fill]
@@ -191,8 +195,8 @@ Atoms == <<
     [OpenQuoteTkn |-> TkG("\"", "R"), Parts |-> Sq(<<Ch("strbrackets", 0), StrVar>>), CloseQuoteTkn |-> TkG("\"", "L")]) >>
 
 Others == <<
-  V("Argument", "Argument", {"arg"}, "both", 0, FALSE, [Expr |-> Ch("expr", L.yield)]),
-  V("Argument/variadic", "Argument", {"arg"}, "both", 0, FALSE, [VariadicTkn |-> Tk("..."), Expr |-> Ch("expr", L.yield)]),
+  V("Argument", "Argument", {"arg"}, "both", 0, FALSE, [Expr |-> Ch("expr", 0)]),
+  V("Argument/variadic", "Argument", {"arg"}, "both", 0, FALSE, [VariadicTkn |-> Tk("..."), Expr |-> Ch("expr", 0)]),
   V("ExprArrayItem", "ExprArrayItem", {"arrayitem"}, "both", 0, FALSE, [Val |-> Ch("expr", L.yield)]),
   V("ExprArrayItem/key", "ExprArrayItem", {"arrayitem"}, "both", 0, FALSE, [Key |-> Ch("expr", L.yield), DoubleArrowTkn |-> Tk("=>"), Val |-> Ch("expr", L.yield)]),
   V("ExprArrayItem/ref", "ExprArrayItem", {"arrayitem"}, "both", 0, FALSE, [AmpersandTkn |-> Tk("&"), Val |-> Ch("var", 0)]),
@@ -339,7 +343,220 @@ Statements == <<
      OpenCurlyBracketTkn |-> Tk("{"), Stmts |-> Ls("inner", 0, 1, "", "", "no"), CloseCurlyBracketTkn |-> Tk("}")])
 >>
 
-Variants == Binaries \o Assigns \o Unaries \o Atoms \o Others \o Statements
+
+\* ---------------------------------------------------------------- more expressions and variables
+
+Mod(kw) == Nd("Identifier", [IdentifierTkn |-> Tk(kw), Value |-> Vl("IdentifierTkn")])
+
+More == <<
+  V("ExprYield", "ExprYield", {"expr"}, "7g", L.yield, TRUE, [YieldTkn |-> Tk("yield")]),
+  V("ExprYield/val", "ExprYield", {"expr"}, "7g", L.yield, FALSE, [YieldTkn |-> Tk("yield"), Val |-> Ch("expr", L.ternary)]),
+  V("ExprYield/key", "ExprYield", {"expr"}, "7g", L.yield, FALSE,
+    [YieldTkn |-> Tk("yield"), Key |-> Ch("expr", L.ternary), DoubleArrowTkn |-> Tk("=>"), Val |-> Ch("expr", L.ternary)]),
+  \* (PHP 5.5/5.6 accept yield as an operand only in some contexts: marked "7g", not "7")
+  \* PHP 5.5/5.6 accept yield only as a statement, as the right side of an assignment or in parentheses
+  V("StmtExpression/yield", "StmtExpression", {"stmt", "closed"}, "both", 0, FALSE,
+    [Expr |-> Nd("ExprYield", [YieldTkn |-> Tk("yield"), Val |-> Ch("expr", L.ternary)]), SemiColonTkn |-> Tk(";")]),
+  V("StmtExpression/yieldkey", "StmtExpression", {"stmt", "closed"}, "both", 0, FALSE,
+    [Expr |-> Nd("ExprYield", [YieldTkn |-> Tk("yield"), Key |-> Ch("expr", L.ternary), DoubleArrowTkn |-> Tk("=>"), Val |-> Ch("expr", L.ternary)]), SemiColonTkn |-> Tk(";")]),
+  V("StmtExpression/yieldassign", "StmtExpression", {"stmt", "closed"}, "7g", 0, FALSE,     \* PHP 5 needs parentheses here
+    [Expr |-> Nd("ExprAssign", [Var |-> Ch("var", 0), EqualTkn |-> Tk("="), Expr |-> Nd("ExprYield", [YieldTkn |-> Tk("yield"), Val |-> Ch("expr", L.ternary)])]), SemiColonTkn |-> Tk(";")]),
+  V("ExprYieldFrom", "ExprYieldFrom", {"expr"}, "7", L.yield, FALSE, [YieldFromTkn |-> Tk("yield from"), Expr |-> Ch("expr", L.ternary)]),
+  V("ExprArrowFunction", "ExprArrowFunction", {"expr"}, "7", 0, FALSE,
+    [FnTkn |-> Tk("fn"), OpenParenthesisTkn |-> Tk("("), Params |-> Ls("param", 0, 2, "SeparatorTkns", ",", "no"), CloseParenthesisTkn |-> Tk(")"),
+     DoubleArrowTkn |-> Tk("=>"), Expr |-> Ch("expr", L.assign)]),
+  V("ExprArrowFunction/full", "ExprArrowFunction", {"expr"}, "7", 0, FALSE,
+    [StaticTkn |-> Tk("static"), FnTkn |-> Tk("fn"), AmpersandTkn |-> Tk("&"), OpenParenthesisTkn |-> Tk("("), Params |-> Ls("param", 0, 1, "SeparatorTkns", ",", "no"),
+     CloseParenthesisTkn |-> Tk(")"), ColonTkn |-> Tk(":"), ReturnType |-> Ch("type", 0), DoubleArrowTkn |-> Tk("=>"), Expr |-> Ch("expr", L.assign)]),
+  V("ExprClosure/rettype", "ExprClosure", {"expr"}, "7", L.atom, FALSE,
+    [FunctionTkn |-> Tk("function"), OpenParenthesisTkn |-> Tk("("), Params |-> Ls("param", 0, 1, "SeparatorTkns", ",", "no"), CloseParenthesisTkn |-> Tk(")"),
+     ColonTkn |-> Tk(":"), ReturnType |-> Ch("type", 0), OpenCurlyBracketTkn |-> Tk("{"), Stmts |-> Ls("inner", 0, 1, "", "", "no"), CloseCurlyBracketTkn |-> Tk("}")]),
+  \* variable variables and dynamic member names
+  V("ExprVariable/varvar", "ExprVariable", {"expr", "var"}, "both", L.atom, TRUE, [DollarTkn |-> TkG("$", "R"), Name |-> SimpleVar]),
+  V("ExprVariable/curly", "ExprVariable", {"expr", "var"}, "both", L.atom, FALSE,
+    [DollarTkn |-> TkG("$", "R"), OpenCurlyBracketTkn |-> Tk("{"), Name |-> Ch("expr", 0), CloseCurlyBracketTkn |-> Tk("}")]),
+  V("ExprPropertyFetch/var", "ExprPropertyFetch", {"expr", "var"}, "both", L.atom, FALSE,
+    [Var |-> Ch("deref", 0), ObjectOperatorTkn |-> Tk("->"), Prop |-> SimpleVar]),
+  V("ExprPropertyFetch/curly", "ExprPropertyFetch", {"expr", "var", "deref"}, "both", L.atom, FALSE,
+    [Var |-> Ch("deref", 0), ObjectOperatorTkn |-> Tk("->"), OpenCurlyBracketTkn |-> Tk("{"), Prop |-> Ch("expr", 0), CloseCurlyBracketTkn |-> Tk("}")]),
+  V("ExprMethodCall/var", "ExprMethodCall", {"expr", "deref"}, "both", L.atom, FALSE,
+    [Var |-> Ch("deref", 0), ObjectOperatorTkn |-> Tk("->"), Method |-> SimpleVar, OpenParenthesisTkn |-> Tk("("), Args |-> Args, CloseParenthesisTkn |-> Tk(")")]),
+  V("ExprStaticCall/static", "ExprStaticCall", {"expr", "deref"}, "both", L.atom, FALSE,
+    [Class |-> Mod("static"), DoubleColonTkn |-> Tk("::"), Call |-> Ident("IDENT"), OpenParenthesisTkn |-> Tk("("), Args |-> Args, CloseParenthesisTkn |-> Tk(")")]),
+  V("ExprStaticCall/varclass", "ExprStaticCall", {"expr", "deref"}, "both", L.atom, FALSE,
+    [Class |-> SimpleVar, DoubleColonTkn |-> Tk("::"), Call |-> Ident("IDENT"), OpenParenthesisTkn |-> Tk("("), Args |-> Args, CloseParenthesisTkn |-> Tk(")")]),
+  V("ExprStaticPropertyFetch/varclass", "ExprStaticPropertyFetch", {"expr", "var"}, "both", L.atom, FALSE,
+    [Class |-> SimpleVar, DoubleColonTkn |-> Tk("::"), Prop |-> SimpleVar]),
+  V("ExprClassConstFetch/class", "ExprClassConstFetch", {"expr", "scalar"}, "both", L.atom, FALSE,
+    [Class |-> Ch("name", 0), DoubleColonTkn |-> Tk("::"), Const |-> Mod("class")]),
+  V("ExprClassConstFetch/static", "ExprClassConstFetch", {"expr"}, "both", L.atom, TRUE,
+    [Class |-> Mod("static"), DoubleColonTkn |-> Tk("::"), Const |-> Ident("IDENT")]),
+  \* list() / [] destructuring
+  V("ExprAssign/list", "ExprAssign", {"expr"}, "both", L.assign, FALSE, [Var |-> Ch("listexpr", 0), EqualTkn |-> Tk("="), Expr |-> Ch("expr", L.assign)]),
+  V("ExprList", "ExprList", {"listexpr"}, "both", 0, FALSE,
+    [ListTkn |-> Tk("list"), OpenBracketTkn |-> Tk("("), Items |-> Ls("listitem", 1, 3, "SeparatorTkns", ",", "no"), CloseBracketTkn |-> Tk(")")]),
+  V("ExprList/skip", "ExprList", {"listexpr"}, "both", 0, FALSE,
+    [ListTkn |-> Tk("list"), OpenBracketTkn |-> Tk("("),
+     Items |-> SqS(<<Ch("listitem", 0), Nd("ExprArrayItem", [f |-> "empty"]), Ch("listitem", 0)>>, "SeparatorTkns", ","), CloseBracketTkn |-> Tk(")")]),
+  V("ExprList/short", "ExprList", {"listexpr"}, "7", 0, FALSE,
+    [OpenBracketTkn |-> Tk("["), Items |-> Ls("listitem7", 1, 3, "SeparatorTkns", ",", "no"), CloseBracketTkn |-> Tk("]")]),
+  V("listitem", "ExprArrayItem", {"listitem", "listitem7"}, "both", 0, FALSE, [Val |-> Ch("var", 0)]),
+  V("listitem/nested", "ExprArrayItem", {"listitem"}, "both", 0, FALSE,
+    [Val |-> Nd("ExprList", [ListTkn |-> Tk("list"), OpenBracketTkn |-> Tk("("), Items |-> Ls("listitem", 1, 2, "SeparatorTkns", ",", "no"), CloseBracketTkn |-> Tk(")")])]),
+  V("listitem/keyed", "ExprArrayItem", {"listitem7"}, "7", 0, FALSE, [Key |-> Ch("scalar", 0), DoubleArrowTkn |-> Tk("=>"), Val |-> Ch("var", 0)]),
+  V("StmtForeach/list", "StmtForeach", {"stmt"}, "both", 0, FALSE,
+    [ForeachTkn |-> Tk("foreach"), OpenParenthesisTkn |-> Tk("("), Expr |-> Ch("expr", L.yield), AsTkn |-> Tk("as"), Var |-> Ch("listexpr", 0),
+     CloseParenthesisTkn |-> Tk(")"), Stmt |-> Ch("stmt", 0)]),
+  \* anonymous classes
+  V("ExprNew/anon", "ExprNew", {"expr"}, "7", L.atom, FALSE,
+    [NewTkn |-> Tk("new"), Class |-> Nd("StmtClass",
+       [ClassTkn |-> Tk("class"), OpenParenthesisTkn |-> Tk("("), Args |-> Args, CloseParenthesisTkn |-> Tk(")"), ExtendsTkn |-> Tk("extends"), Extends |-> Ch("name", 0),
+        OpenCurlyBracketTkn |-> Tk("{"), Stmts |-> Ls("member", 0, 2, "", "", "no"), CloseCurlyBracketTkn |-> Tk("}")])]),
+  V("ExprNew/anon_plain", "ExprNew", {"expr"}, "7", L.atom, TRUE,
+    [NewTkn |-> Tk("new"), Class |-> Nd("StmtClass",
+       [ClassTkn |-> Tk("class"), OpenCurlyBracketTkn |-> Tk("{"), Stmts |-> Ls("member", 0, 1, "", "", "no"), CloseCurlyBracketTkn |-> Tk("}")])])
+>>
+
+\* ---------------------------------------------------------------- heredoc / nowdoc, inline HTML
+
+HdText == Nd("ScalarEncapsedStringPart", [EncapsedStrTkn |-> TkG("HDTEXT", "LR"), Value |-> Vl("EncapsedStrTkn")])
+HdTextIndent == Nd("ScalarEncapsedStringPart", [EncapsedStrTkn |-> TkG("HDTEXT_INDENT", "LR"), Value |-> Vl("EncapsedStrTkn")])
+Heredoc(start, parts) == Nd("ScalarHeredoc", [OpenHeredocTkn |-> TkG(start, "R"), Parts |-> Sq(parts), CloseHeredocTkn |-> TkG("HEREDOC_END", "LR")])
+HeredocEmpty(start) == Nd("ScalarHeredoc", [OpenHeredocTkn |-> TkG(start, "R"), CloseHeredocTkn |-> TkG("HEREDOC_END", "LR")])
+\* before 7.3 the closing label must be followed by ';' or a newline, and ';' by a newline: glue "N" = a newline comes first in the next gap
+EchoHd(id, fam, h) == V(id, "StmtEcho", {"stmt", "closed"}, fam, 0, TRUE, [EchoTkn |-> Tk("echo"), Exprs |-> Sq(<<h>>), SemiColonTkn |-> TkG(";", "LN")])
+
+Heredocs == <<
+  EchoHd("heredoc/text", "both", Heredoc("HEREDOC_START", <<HdText>>)),
+  EchoHd("heredoc/quoted", "both", Heredoc("HEREDOC_START_DQ", <<HdText>>)),
+  EchoHd("heredoc/var", "both", Heredoc("HEREDOC_START", <<HdText, StrVar, HdText>>)),
+  EchoHd("heredoc/varfirst", "both", Heredoc("HEREDOC_START", <<StrVar, HdText>>)),
+  EchoHd("heredoc/empty", "both", HeredocEmpty("HEREDOC_START")),
+  EchoHd("nowdoc/text", "both", Heredoc("NOWDOC_START", <<HdText>>)),
+  EchoHd("nowdoc/empty", "both", HeredocEmpty("NOWDOC_START")),
+  \* flexible heredoc (>= 7.3): indented closing label (the indentation stays in the last text part), heredoc inside an argument list
+  EchoHd("heredoc/indented", "73", Heredoc("HEREDOC_START", <<HdTextIndent>>)),
+  V("heredoc/arg", "ExprFunctionCall", {"expr"}, "73", L.atom, TRUE,
+    [Function |-> Nd("Name", [Parts |-> Sq(<<NamePartN>>)]), OpenParenthesisTkn |-> Tk("("),
+     Args |-> SqS(<<Nd("Argument", [Expr |-> Heredoc("HEREDOC_START", <<HdText>>)]), Nd("Argument", [Expr |-> SimpleVar])>>, "SeparatorTkns", ","),
+     CloseParenthesisTkn |-> Tk(")")]),
+  \* "?>" ends a statement; inline HTML is a statement of its own; the next PHP token needs a new open tag (glue "O")
+  V("closetag+html", "SEQ", {"inner"}, "both", 0, TRUE,
+    [A |-> Nd("StmtNop", [SemiColonTkn |-> TkG("?>", "R")]), B |-> Nd("StmtInlineHtml", [InlineHtmlTkn |-> TkG("HTML", "LO"), Value |-> Vl("InlineHtmlTkn")])]),
+  V("echo+closetag+html", "SEQ", {"inner"}, "both", 0, FALSE,
+    [A |-> Nd("StmtEcho", [EchoTkn |-> Tk("echo"), Exprs |-> LsM("expr", L.yield, 1, 2, "SeparatorTkns", ",", "no"), SemiColonTkn |-> TkG("?>", "R")]),
+     B |-> Nd("StmtInlineHtml", [InlineHtmlTkn |-> TkG("HTML", "LO"), Value |-> Vl("InlineHtmlTkn")])])
+>>
+
+\* ---------------------------------------------------------------- declarations
+
+ConstDecl == Ls("constdecl", 1, 2, "SeparatorTkns", ",", "no")
+MethodBody == Nd("StmtStmtList", [OpenCurlyBracketTkn |-> Tk("{"), Stmts |-> Ls("inner", 0, 2, "", "", "no"), CloseCurlyBracketTkn |-> Tk("}")])
+
+Decls == <<
+  V("StmtClass", "StmtClass", {"inner"}, "both", 0, TRUE,
+    [ClassTkn |-> Tk("class"), Name |-> Ident("IDENT"), OpenCurlyBracketTkn |-> Tk("{"), Stmts |-> Ls("member", 0, 3, "", "", "no"), CloseCurlyBracketTkn |-> Tk("}")]),
+  V("StmtClass/full", "StmtClass", {"inner"}, "both", 0, FALSE,
+    [Modifiers |-> Ls("classmod", 1, 1, "", "", "no"), ClassTkn |-> Tk("class"), Name |-> Ident("IDENT"), ExtendsTkn |-> Tk("extends"), Extends |-> Ch("name", 0),
+     ImplementsTkn |-> Tk("implements"), Implements |-> Ls("name", 1, 2, "ImplementsSeparatorTkns", ",", "no"),
+     OpenCurlyBracketTkn |-> Tk("{"), Stmts |-> Ls("member", 0, 2, "", "", "no"), CloseCurlyBracketTkn |-> Tk("}")]),
+  V("StmtClass/extends", "StmtClass", {"inner"}, "both", 0, FALSE,
+    [ClassTkn |-> Tk("class"), Name |-> Ident("IDENT"), ExtendsTkn |-> Tk("extends"), Extends |-> Ch("name", 0),
+     OpenCurlyBracketTkn |-> Tk("{"), Stmts |-> Ls("member", 0, 1, "", "", "no"), CloseCurlyBracketTkn |-> Tk("}")]),
+  V("classmod/abstract", "Identifier", {"classmod"}, "both", 0, TRUE, [IdentifierTkn |-> Tk("abstract"), Value |-> Vl("IdentifierTkn")]),
+  V("classmod/final", "Identifier", {"classmod"}, "both", 0, TRUE, [IdentifierTkn |-> Tk("final"), Value |-> Vl("IdentifierTkn")]),
+  V("StmtInterface", "StmtInterface", {"inner"}, "both", 0, TRUE,
+    [InterfaceTkn |-> Tk("interface"), Name |-> Ident("IDENT"), OpenCurlyBracketTkn |-> Tk("{"), Stmts |-> Ls("imember", 0, 2, "", "", "no"), CloseCurlyBracketTkn |-> Tk("}")]),
+  V("StmtInterface/extends", "StmtInterface", {"inner"}, "both", 0, FALSE,
+    [InterfaceTkn |-> Tk("interface"), Name |-> Ident("IDENT"), ExtendsTkn |-> Tk("extends"), Extends |-> Ls("name", 1, 2, "ExtendsSeparatorTkns", ",", "no"),
+     OpenCurlyBracketTkn |-> Tk("{"), Stmts |-> Ls("imember", 0, 1, "", "", "no"), CloseCurlyBracketTkn |-> Tk("}")]),
+  V("StmtTrait", "StmtTrait", {"inner"}, "both", 0, TRUE,
+    [TraitTkn |-> Tk("trait"), Name |-> Ident("IDENT"), OpenCurlyBracketTkn |-> Tk("{"), Stmts |-> Ls("member", 0, 2, "", "", "no"), CloseCurlyBracketTkn |-> Tk("}")]),
+  \* members
+  V("vis/public", "Identifier", {"vis", "mmod"}, "both", 0, TRUE, [IdentifierTkn |-> Tk("public"), Value |-> Vl("IdentifierTkn")]),
+  V("vis/protected", "Identifier", {"vis", "mmod"}, "both", 0, TRUE, [IdentifierTkn |-> Tk("protected"), Value |-> Vl("IdentifierTkn")]),
+  V("vis/private", "Identifier", {"vis", "mmod"}, "both", 0, TRUE, [IdentifierTkn |-> Tk("private"), Value |-> Vl("IdentifierTkn")]),
+  V("mmod/static", "Identifier", {"mmod"}, "both", 0, TRUE, [IdentifierTkn |-> Tk("static"), Value |-> Vl("IdentifierTkn")]),
+  V("mmod/final", "Identifier", {"mmod"}, "both", 0, TRUE, [IdentifierTkn |-> Tk("final"), Value |-> Vl("IdentifierTkn")]),
+  V("StmtClassConstList", "StmtClassConstList", {"member", "imember"}, "both", 0, FALSE, [ConstTkn |-> Tk("const"), Consts |-> ConstDecl, SemiColonTkn |-> Tk(";")]),
+  V("StmtClassConstList/vis", "StmtClassConstList", {"member"}, "7", 0, FALSE,
+    [Modifiers |-> Ls("vis", 1, 1, "", "", "no"), ConstTkn |-> Tk("const"), Consts |-> ConstDecl, SemiColonTkn |-> Tk(";")]),
+  V("StmtConstant", "StmtConstant", {"constdecl"}, "both", 0, FALSE, [Name |-> Ident("IDENT"), EqualTkn |-> Tk("="), Expr |-> Ch("scalar", 0)]),
+  V("StmtPropertyList", "StmtPropertyList", {"member"}, "both", 0, TRUE,
+    [Modifiers |-> Ls("vis", 1, 1, "", "", "no"), Props |-> Ls("prop", 1, 2, "SeparatorTkns", ",", "no"), SemiColonTkn |-> Tk(";")]),
+  V("StmtPropertyList/static", "StmtPropertyList", {"member"}, "both", 0, TRUE,
+    [Modifiers |-> SqS(<<Mod("public"), Mod("static")>>, "", ""), Props |-> Ls("prop", 1, 1, "SeparatorTkns", ",", "no"), SemiColonTkn |-> Tk(";")]),
+  V("StmtPropertyList/var", "StmtPropertyList", {"member"}, "both", 0, TRUE,
+    [Modifiers |-> SqS(<<Mod("var")>>, "", ""), Props |-> Ls("prop", 1, 2, "SeparatorTkns", ",", "no"), SemiColonTkn |-> Tk(";")]),
+  V("StmtPropertyList/typed", "StmtPropertyList", {"member"}, "7", 0, FALSE,
+    [Modifiers |-> Ls("vis", 1, 1, "", "", "no"), Type |-> Ch("type", 0), Props |-> Ls("prop", 1, 1, "SeparatorTkns", ",", "no"), SemiColonTkn |-> Tk(";")]),
+  V("StmtProperty", "StmtProperty", {"prop"}, "both", 0, TRUE, [Var |-> SimpleVar]),
+  V("StmtProperty/init", "StmtProperty", {"prop"}, "both", 0, FALSE, [Var |-> SimpleVar, EqualTkn |-> Tk("="), Expr |-> Ch("scalar", 0)]),
+  V("StmtClassMethod", "StmtClassMethod", {"member"}, "both", 0, TRUE,
+    [FunctionTkn |-> Tk("function"), Name |-> Ident("IDENT"), OpenParenthesisTkn |-> Tk("("), Params |-> Ls("param", 0, 2, "SeparatorTkns", ",", "no"),
+     CloseParenthesisTkn |-> Tk(")"), Stmt |-> MethodBody]),
+  V("StmtClassMethod/mods", "StmtClassMethod", {"member"}, "both", 0, TRUE,
+    [Modifiers |-> Ls("mmod", 1, 2, "", "", "no"), FunctionTkn |-> Tk("function"), AmpersandTkn |-> Tk("&"), Name |-> Ident("IDENT"), OpenParenthesisTkn |-> Tk("("),
+     Params |-> Ls("param", 0, 1, "SeparatorTkns", ",", "no"), CloseParenthesisTkn |-> Tk(")"), Stmt |-> MethodBody]),
+  V("StmtClassMethod/abstract", "StmtClassMethod", {"member"}, "both", 0, TRUE,
+    [Modifiers |-> SqS(<<Mod("abstract"), Mod("protected")>>, "", ""), FunctionTkn |-> Tk("function"), Name |-> Ident("IDENT"), OpenParenthesisTkn |-> Tk("("),
+     Params |-> Ls("param", 0, 1, "SeparatorTkns", ",", "no"), CloseParenthesisTkn |-> Tk(")"), Stmt |-> Nd("StmtNop", [SemiColonTkn |-> Tk(";")])]),
+  V("StmtClassMethod/iface", "StmtClassMethod", {"imember"}, "both", 0, TRUE,
+    [Modifiers |-> SqS(<<Mod("public")>>, "", ""), FunctionTkn |-> Tk("function"), Name |-> Ident("IDENT"), OpenParenthesisTkn |-> Tk("("),
+     Params |-> Ls("param", 0, 2, "SeparatorTkns", ",", "no"), CloseParenthesisTkn |-> Tk(")"), Stmt |-> Nd("StmtNop", [SemiColonTkn |-> Tk(";")])]),
+  V("StmtClassMethod/rettype", "StmtClassMethod", {"member"}, "7", 0, FALSE,
+    [Modifiers |-> Ls("vis", 1, 1, "", "", "no"), FunctionTkn |-> Tk("function"), Name |-> Ident("IDENT"), OpenParenthesisTkn |-> Tk("("),
+     Params |-> Ls("param", 0, 1, "SeparatorTkns", ",", "no"), CloseParenthesisTkn |-> Tk(")"), ColonTkn |-> Tk(":"), ReturnType |-> Ch("type", 0), Stmt |-> MethodBody]),
+  V("StmtTraitUse", "StmtTraitUse", {"member"}, "both", 0, TRUE,
+    [UseTkn |-> Tk("use"), Traits |-> Ls("name", 1, 2, "SeparatorTkns", ",", "no"), SemiColonTkn |-> Tk(";")]),
+  V("StmtTraitUse/adapt", "StmtTraitUse", {"member"}, "both", 0, FALSE,
+    [UseTkn |-> Tk("use"), Traits |-> Ls("name", 1, 2, "SeparatorTkns", ",", "no"), OpenCurlyBracketTkn |-> Tk("{"),
+     Adaptations |-> Ls("adaptation", 0, 2, "", "", "no"), CloseCurlyBracketTkn |-> Tk("}")]),
+  V("StmtTraitUsePrecedence", "StmtTraitUsePrecedence", {"adaptation"}, "both", 0, TRUE,
+    [Trait |-> Ch("name", 0), DoubleColonTkn |-> Tk("::"), Method |-> Ident("IDENT"), InsteadofTkn |-> Tk("insteadof"),
+     Insteadof |-> Ls("name", 1, 2, "SeparatorTkns", ",", "no"), SemiColonTkn |-> Tk(";")]),
+  V("StmtTraitUseAlias", "StmtTraitUseAlias", {"adaptation"}, "both", 0, TRUE,
+    [Trait |-> Ch("name", 0), DoubleColonTkn |-> Tk("::"), Method |-> Ident("IDENT"), AsTkn |-> Tk("as"), Modifier |-> Mod("protected"), Alias |-> Ident("IDENT"), SemiColonTkn |-> Tk(";")]),
+  V("StmtTraitUseAlias/name", "StmtTraitUseAlias", {"adaptation"}, "both", 0, TRUE,
+    [Method |-> Ident("IDENT"), AsTkn |-> Tk("as"), Alias |-> Ident("IDENT"), SemiColonTkn |-> Tk(";")]),
+  V("StmtTraitUseAlias/vis", "StmtTraitUseAlias", {"adaptation"}, "both", 0, TRUE,
+    [Method |-> Ident("IDENT"), AsTkn |-> Tk("as"), Modifier |-> Mod("private"), SemiColonTkn |-> Tk(";")]),
+  \* top-level statements
+  V("StmtNamespace", "StmtNamespace", {"toponly"}, "both", 0, TRUE, [NsTkn |-> Tk("namespace"), Name |-> Ch("plainname", 0), SemiColonTkn |-> Tk(";")]),
+  V("StmtNamespace/braced", "StmtNamespace", {"toponly_first"}, "both", 0, TRUE,
+    [NsTkn |-> Tk("namespace"), Name |-> Ch("plainname", 0), OpenCurlyBracketTkn |-> Tk("{"), Stmts |-> Ls("nsitem", 0, 2, "", "", "no"), CloseCurlyBracketTkn |-> Tk("}")]),
+  V("StmtNamespace/global", "StmtNamespace", {"toponly_first"}, "both", 0, TRUE,
+    [NsTkn |-> Tk("namespace"), OpenCurlyBracketTkn |-> Tk("{"), Stmts |-> Ls("nsitem", 0, 2, "", "", "no"), CloseCurlyBracketTkn |-> Tk("}")]),
+  V("plainname", "Name", {"plainname"}, "both", 0, TRUE, [Parts |-> Ls("namepart", 1, 2, "SeparatorTkns", "\\", "no")]),
+  V("StmtUseList", "StmtUseList", {"toponly", "nsitem"}, "both", 0, TRUE,
+    [UseTkn |-> Tk("use"), Uses |-> Ls("useclause", 1, 2, "SeparatorTkns", ",", "no"), SemiColonTkn |-> Tk(";")]),
+  V("StmtUseList/function", "StmtUseList", {"toponly", "nsitem"}, "both", 0, TRUE,
+    [UseTkn |-> Tk("use"), Type |-> Mod("function"), Uses |-> Ls("useclause", 1, 2, "SeparatorTkns", ",", "no"), SemiColonTkn |-> Tk(";")]),
+  V("StmtUseList/const", "StmtUseList", {"toponly", "nsitem"}, "both", 0, TRUE,
+    [UseTkn |-> Tk("use"), Type |-> Mod("const"), Uses |-> Ls("useclause", 1, 1, "SeparatorTkns", ",", "no"), SemiColonTkn |-> Tk(";")]),
+  V("StmtUse", "StmtUse", {"useclause", "groupclause"}, "both", 0, TRUE, [Use |-> Ch("plainname", 0)]),
+  V("StmtUse/alias", "StmtUse", {"useclause", "groupclause"}, "both", 0, TRUE, [Use |-> Ch("plainname", 0), AsTkn |-> Tk("as"), Alias |-> Ident("IDENT")]),
+  V("StmtUse/typed", "StmtUse", {"groupclause"}, "7", 0, TRUE, [Type |-> Mod("function"), Use |-> Ch("plainname", 0)]),
+  V("StmtGroupUseList", "StmtGroupUseList", {"toponly", "nsitem"}, "7", 0, TRUE,
+    [UseTkn |-> Tk("use"), Prefix |-> Ch("plainname", 0), NsSeparatorTkn |-> TkG("\\", "LR"), OpenCurlyBracketTkn |-> TkG("{", "L"),
+     Uses |-> Ls("groupclause", 1, 2, "SeparatorTkns", ",", "no"), CloseCurlyBracketTkn |-> Tk("}"), SemiColonTkn |-> Tk(";")]),
+  V("StmtGroupUseList/typed", "StmtGroupUseList", {"toponly", "nsitem"}, "7", 0, TRUE,
+    [UseTkn |-> Tk("use"), Type |-> Mod("const"), LeadingNsSeparatorTkn |-> TkG("\\", "R"), Prefix |-> Ch("plainname", 0), NsSeparatorTkn |-> TkG("\\", "LR"),
+     OpenCurlyBracketTkn |-> TkG("{", "L"), Uses |-> Ls("useclause", 1, 2, "SeparatorTkns", ",", "no"), CloseCurlyBracketTkn |-> Tk("}"), SemiColonTkn |-> Tk(";")]),
+  V("StmtConstList", "StmtConstList", {"toponly", "nsitem"}, "both", 0, FALSE, [ConstTkn |-> Tk("const"), Consts |-> ConstDecl, SemiColonTkn |-> Tk(";")]),
+  V("StmtDeclare", "StmtDeclare", {"stmt", "closed"}, "both", 0, TRUE,
+    [DeclareTkn |-> Tk("declare"), OpenParenthesisTkn |-> Tk("("), Consts |-> Ls("declconst", 1, 2, "SeparatorTkns", ",", "no"), CloseParenthesisTkn |-> Tk(")"),
+     Stmt |-> Nd("StmtNop", [SemiColonTkn |-> Tk(";")])]),
+  V("StmtDeclare/block", "StmtDeclare", {"stmt", "closed"}, "both", 0, TRUE,
+    [DeclareTkn |-> Tk("declare"), OpenParenthesisTkn |-> Tk("("), Consts |-> Ls("declconst", 1, 1, "SeparatorTkns", ",", "no"), CloseParenthesisTkn |-> Tk(")"), Stmt |-> Block]),
+  V("StmtDeclare/alt", "StmtDeclare", {"stmt", "closed"}, "both", 0, TRUE,
+    [DeclareTkn |-> Tk("declare"), OpenParenthesisTkn |-> Tk("("), Consts |-> Ls("declconst", 1, 1, "SeparatorTkns", ",", "no"), CloseParenthesisTkn |-> Tk(")"),
+     ColonTkn |-> Tk(":"), Stmt |-> Bare, EndDeclareTkn |-> Tk("enddeclare"), SemiColonTkn |-> Tk(";")]),
+  V("declconst", "StmtConstant", {"declconst"}, "both", 0, TRUE,
+    [Name |-> Ident("IDENT"), EqualTkn |-> Tk("="), Expr |-> Nd("ScalarLnumber", [NumberTkn |-> Tk("LNUM"), Value |-> Vl("NumberTkn")])])
+>>
+
+Variants == Binaries \o Assigns \o Unaries \o Atoms \o Others \o Statements \o More \o Heredocs \o Decls
 
 \* the root: a file is a statement list (the harness prefixes the open tag as free-floating text of the first token)
 RootFill == [Stmts |-> Ls("top", 0, 3, "", "", "no")]
@@ -348,5 +565,7 @@ NV == Len(Variants)
 \* inner statements = statements + function/class declarations; top statements = inner + namespace/use/const/halt
 InCat(v, c) == \/ c \in Variants[v].cats
                \/ (c = "inner" /\ "stmt" \in Variants[v].cats)
-               \/ (c = "top" /\ ({"stmt", "inner"} \cap Variants[v].cats) # {})
+               \/ (c = "nsitem" /\ ({"stmt", "inner"} \cap Variants[v].cats) # {})
+               \/ (c = "top" /\ ({"stmt", "inner", "toponly"} \cap Variants[v].cats) # {})
+               \/ (c = "top1" /\ ({"stmt", "inner", "toponly", "toponly_first"} \cap Variants[v].cats) # {})
 =============================================================================
